@@ -3,6 +3,7 @@ package main
 // C20: the protocol adapter routes by record version and loses no bytes (public API only).
 
 import (
+	"bytes"
 	"crypto/ecdsa"
 	"crypto/elliptic"
 	crand "crypto/rand"
@@ -46,6 +47,10 @@ func (c *chunkConn) Read(p []byte) (int, error) {
 	}
 	if len(p) == 0 {
 		return 0, nil
+	}
+	if len(c.chunks[0]) == 0 { // scripted: the read deadline expires here, once
+		c.chunks = c.chunks[1:]
+		return 0, os.ErrDeadlineExceeded
 	}
 	n := copy(p, c.chunks[0])
 	if n == len(c.chunks[0]) {
@@ -93,8 +98,30 @@ type c20Input struct {
 	SpeaksFirst bool `json:"speaks_first,omitempty"`
 	// deadline kind: a read deadline of DeadlineMs is armed before the first Read; the client sends the first
 	// Sent bytes of a record (0, or a complete header) and stalls: the Read must fail with a timeout when it is due
-	DeadlineMs int `json:"deadline_ms,omitempty"`
-	Sent       int `json:"sent,omitempty"`
+	// Concurrent (e2e): the server's first Read and first Write are issued at the same time by two goroutines, before the
+	// client has sent anything
+	Concurrent bool `json:"concurrent,omitempty"`
+	DeadlineMs int  `json:"deadline_ms,omitempty"`
+	Sent       int  `json:"sent,omitempty"`
+}
+
+var c20LastErr error
+
+// c20Class: how a Read ended, coarse enough to be the same for the adapter and the stack
+func c20Class(err error) string {
+	switch {
+	case err == nil:
+		return "ok"
+	case err == io.EOF:
+		return "eof"
+	case errors.Is(err, io.ErrUnexpectedEOF):
+		return "unexpected-eof"
+	}
+	var ne net.Error
+	if errors.As(err, &ne) && ne.Timeout() {
+		return "timeout"
+	}
+	return "error"
 }
 
 func c20Err(err error) int {
@@ -234,6 +261,7 @@ func c20AddCase(out *emit.Out, scenario string, in c20Input) {
 					buf = buf[:0]
 				}
 				_, rerr = conn.Read(buf)
+				c20LastErr = rerr
 			}()
 			select {
 			case <-done:
@@ -268,9 +296,83 @@ func c20AddCase(out *emit.Out, scenario string, in c20Input) {
 				code = 15
 			}
 		}()
+		// once routed, the first Read ends as it does on the stack given the same stream directly
+		var adapterCls, directCls string
+		if direct == "" && (code == 1 || code == 3) {
+			adapterCls = c20Class(c20LastErr)
+			tc, sc := c20Cfgs(true, true)
+			var st net.Conn
+			if code == 1 {
+				st = tlcp.Server(&chunkConn{chunks: cloneChunks(in.Chunks)}, tc)
+			} else {
+				st = tls.Server(&chunkConn{chunks: cloneChunks(in.Chunks)}, sc)
+			}
+			buf := make([]byte, 64)
+			if in.ZeroFirst {
+				buf = buf[:0]
+			}
+			done := make(chan error, 1)
+			go func() {
+				defer func() {
+					if r := recover(); r != nil {
+						done <- fmt.Errorf("panic: %v", r)
+					}
+				}()
+				_, err := st.Read(buf)
+				done <- err
+			}()
+			select {
+			case err := <-done:
+				directCls = c20Class(err)
+			case <-time.After(5 * time.Second):
+				directCls = "hang"
+			}
+			if adapterCls != directCls {
+				direct = "first Read through the adapter ends differently from the stack given the same stream"
+			}
+		}
 		out.Add(emit.Case{Scenario: scenario, Trivial: false, Input: in, Direct: direct,
-			Observed: map[string]interface{}{"code": code},
+			Observed: map[string]interface{}{"code": code, "adapter_end": adapterCls, "direct_end": directCls},
 			Coq:      fmt.Sprintf("RouteCase %s %s %s %d", emit.Bool(in.HasTLCP), emit.Bool(in.HasTLS), coqChunks(in.Chunks), code)})
+	case "detect-timeout":
+		// the caller's read deadline expires between two segments (scripted as an empty chunk): nothing is lost or replayed
+		ok := false
+		func() {
+			defer func() {
+				if r := recover(); r != nil {
+					direct = fmt.Sprintf("panic: %v", r)
+				}
+			}()
+			var want, got []byte
+			for _, c := range in.Chunks {
+				want = append(want, c...)
+			}
+			p := &pa.ProtocolDetectConn{Conn: &chunkConn{chunks: cloneChunks(in.Chunks)}}
+			for tries := 0; tries < 4; tries++ {
+				if err := p.ReadFirstHeader(); err == nil {
+					break
+				} else if c20Class(err) != "timeout" {
+					return
+				}
+			}
+			for i := 0; i < 200; i++ {
+				buf := make([]byte, in.Sizes[i%len(in.Sizes)])
+				k, err := p.Read(buf)
+				got = append(got, buf[:k]...)
+				if err != nil && c20Class(err) != "timeout" {
+					break
+				}
+			}
+			ok = bytes.Equal(got, want)
+		}()
+		out.Add(emit.Case{Scenario: scenario, Trivial: false, Input: in, Direct: direct,
+			Observed: map[string]interface{}{"stream_intact": ok},
+			Coq:      fmt.Sprintf("E2ECase %s true", emit.Bool(ok))})
+	case "close-pending":
+		okAdapter, okDirect := c20ClosePending(in, true), c20ClosePending(in, false)
+		out.Add(emit.Case{Scenario: scenario, Trivial: false, Input: in,
+			Observed: map[string]interface{}{"adapter_ok": okAdapter, "direct_ok": okDirect},
+			Coq:      fmt.Sprintf("E2ECase %s %s", emit.Bool(okAdapter), emit.Bool(okDirect))})
 	case "deadline":
 		okAdapter, okDirect := c20Deadline(in, true), c20Deadline(in, false)
 		out.Add(emit.Case{Scenario: scenario, Trivial: false, Input: in,
@@ -282,6 +384,49 @@ func c20AddCase(out *emit.Out, scenario string, in c20Input) {
 			Observed: map[string]interface{}{"adapter_ok": okAdapter, "direct_ok": okDirect},
 			Coq:      fmt.Sprintf("E2ECase %s %s", emit.Bool(okAdapter), emit.Bool(okDirect))})
 	}
+}
+
+// c20ClosePending: a Read is pending on a client that has sent Sent (< 5) bytes; another goroutine closes the connection:
+// Close returns, and the pending Read returns with an error.
+func c20ClosePending(in c20Input, adapter bool) bool {
+	cli, srv, c2s, _ := tk.StreamPair()
+	c2s.Framed = false
+	tc, sc := c20Cfgs(true, true)
+	var server net.Conn
+	if adapter {
+		ch := make(chan net.Conn, 1)
+		ch <- srv
+		ln := pa.NewListener(&oneShotListener{ch}, tc, sc)
+		var err error
+		if server, err = ln.Accept(); err != nil {
+			return false
+		}
+	} else {
+		server = tlcp.Server(srv, tc)
+	}
+	if in.Sent > 0 {
+		cli.Write([]byte{22, 1, 1, 0, 40}[:in.Sent])
+	}
+	readDone := make(chan error, 1)
+	go func() { _, err := server.Read(make([]byte, 16)); readDone <- err }()
+	time.Sleep(20 * time.Millisecond)
+	closeDone := make(chan struct{})
+	go func() { server.Close(); close(closeDone) }()
+	ok := true
+	select {
+	case <-closeDone:
+	case <-time.After(2 * time.Second):
+		ok = false
+	}
+	select {
+	case err := <-readDone:
+		ok = ok && err != nil
+	case <-time.After(2 * time.Second):
+		ok = false
+	}
+	cli.Close()
+	srv.Close()
+	return ok
 }
 
 // c20Deadline: the caller's read deadline, armed before the first Read, is honoured through the adapter as on the stack.
@@ -365,6 +510,59 @@ func c20E2E(in c20Input, adapter bool) bool {
 		client = tls.Client(cli, &tls.Config{RootCAs: pool, ServerName: "tls.test"})
 	}
 	res := make(chan bool, 2)
+	if in.Concurrent {
+		// first Read and first Write at the same time, before the client moves
+		start := make(chan struct{})
+		guard := func() {
+			if r := recover(); r != nil {
+				res <- false
+			}
+		}
+		go func() {
+			defer guard()
+			<-start
+			if _, err := server.Write([]byte("220 ready\r\n")); err != nil {
+				res <- false
+				return
+			}
+			res <- true
+		}()
+		go func() {
+			defer guard()
+			<-start
+			buf := make([]byte, len(in.Payload))
+			if _, err := io.ReadFull(server, buf); err != nil || !bytes.Equal(buf, in.Payload) {
+				res <- false
+				return
+			}
+			res <- true
+		}()
+		close(start)
+		time.Sleep(30 * time.Millisecond)
+		go func() {
+			b := make([]byte, 11)
+			if _, err := io.ReadFull(client, b); err != nil || string(b) != "220 ready\r\n" {
+				res <- false
+				return
+			}
+			_, err := client.Write(in.Payload)
+			res <- err == nil
+		}()
+		ok := true
+		for i := 0; i < 3; i++ {
+			select {
+			case r := <-res:
+				ok = ok && r
+			case <-time.After(5 * time.Second):
+				cli.Close()
+				srv.Close()
+				return false
+			}
+		}
+		cli.Close()
+		srv.Close()
+		return ok
+	}
 	go func() { // server: echo
 		if in.SpeaksFirst {
 			if _, err := server.Write([]byte("220 ready\r\n")); err != nil {
@@ -558,6 +756,16 @@ func runC20(p params) error {
 		}
 		c20AddCase(out, "detect-random", c20Input{Kind: "detect", Chunks: c20Chunk(r, stream, 6), Sizes: sizes})
 	}
+	// the deadline expires between two segments of the first bytes; Close while the first Read is pending
+	for _, cs := range [][][]byte{{{22, 1, 1, 0, 7}, {}, {1, 2, 3, 4, 5, 6, 7}}, {{22, 1, 1}, {}, {0, 7, 1, 2}, {}, {3, 4, 5, 6, 7}}, {{}, {22, 3, 1, 0, 2, 9}, {}, {9}},
+		{{22, 1, 1, 0, 7, 1}, {}, {2, 3, 4, 5, 6, 7}}} {
+		for _, sz := range [][]int{{64}, {5}, {3, 1}, {6, 2}} {
+			c20AddCase(out, "detect-deadline-between-segments", c20Input{Kind: "detect-timeout", Chunks: cs, Sizes: sz})
+		}
+	}
+	for _, sent := range []int{0, 3, 4} {
+		c20AddCase(out, "close-while-first-read-pending", c20Input{Kind: "close-pending", Sent: sent})
+	}
 	// e2e
 	nE := 6
 	if p.tier == "thorough" {
@@ -579,6 +787,9 @@ func runC20(p params) error {
 		c20AddCase(out, "e2e-server-speaks-first", c20Input{Kind: "e2e", Proto: proto, Seg: []int{1, 5, 2}, Payload: rb(700), SpeaksFirst: true})
 		for _, sent := range []int{0, 3, 5, 9} {
 			c20AddCase(out, "deadline-before-first-read", c20Input{Kind: "deadline", Proto: proto, DeadlineMs: 250, Sent: sent})
+		}
+		for k := 0; k < 3; k++ {
+			c20AddCase(out, "e2e-read-and-write-at-once", c20Input{Kind: "e2e", Proto: proto, Payload: rb(50 + 100*k), Concurrent: true})
 		}
 	}
 	return out.Finish()
